@@ -47,3 +47,4 @@ def rules(ctx):
     S.snapshot_atomic_rules(ctx)
     S.round4_residue_rules(ctx)
     S.survey3_rules(ctx)
+    S.round5_rules(ctx)
